@@ -80,6 +80,7 @@ type Trans struct {
 	underContract    map[string]bool
 	reqOld           *State
 	pendingFinals    map[int]string
+	curCallValue     ssa.Value // the call instruction of the builtin being translated
 	pendingMaintains []func(State) string
 	selfTerm         string
 	topFrame         *Frame
@@ -677,6 +678,16 @@ func (t *Trans) loopWrites(fr *Frame, lr *loopRec) map[string]string {
 		for _, in := range b.Instrs {
 			for c, s := range t.P.instrWrites(t.env, fr.fn, in) {
 				out[c] = s
+			}
+			// a Next inside the loop advances the visited set of its map range: the set is part of the
+			// loop state and is unknown at the head (invariants speak about it through (visited k))
+			if nx, ok := in.(*ssa.Next); ok {
+				if r, ok := nx.Iter.(*ssa.Range); ok {
+					if _, isMap := r.X.Type().Underlying().(*types.Map); isMap {
+						c := t.iterComp(fr, r)
+						out[c] = t.env.comps[c]
+					}
+				}
 			}
 		}
 	}
